@@ -138,7 +138,11 @@ func genSched(cfg Config, emit func(string, bool, []string)) {
 		add := func(f string, a ...any) { ops = append(ops, fmt.Sprintf(f, a...)) }
 		if c%100 == 99 {
 			// the first write transactions of a fresh table, opened in parallel without hooks
-			add("storm %d %d", 4+r.IntN(5), 60)
+			trials := 60
+			if cfg.Thorough() {
+				trials = 300
+			}
+			add("storm %d %d", 4+r.IntN(5), trials)
 			emit("sched storm", true, ops)
 			continue
 		}
